@@ -22,8 +22,19 @@ Inductive lim_op :=
 (** handleLogin end to end.  [kind]: 0 well-formed request, 1 undecodable
     body.  [addr]: the TCP peer; [hdr]: the address the request names in a
     proxy header, if any; [trusted]: whether it lies inside trusted_proxies.  [status]: HTTP status; [retry]: Retry-After (seconds) or -1;
-    [nsess]: number of sessions afterwards. *)
-Record login_step := { ls_kind : Z; ls_now : Z; ls_addr : bytes; ls_hdr : option bytes; ls_trusted : bool; ls_ok : bool;
+    [nsess]: number of sessions afterwards.
+    Round 4 (time resolution): the real clock is read by the code, not given
+    to it; the harness reads it immediately before ([ls_now]) and after
+    ([ls_now_hi]) the call and keeps a history only if no deadline of the
+    table lies inside that bracket, so that every instant in it gives the same
+    decisions; the replay uses [ls_now] for the check.  [ls_now2] is the
+    instant [inc] read, recovered exactly from the deadline the step wrote
+    (deadline minus block or minus the window, whichever falls inside the
+    bracket; [ls_now] when the step wrote none), so the model's table is the
+    real one to the nanosecond and the next decision can be judged as close
+    to a deadline as the bracket is narrow.  The Retry-After value must lie
+    between the values for the two ends of the bracket. *)
+Record login_step := { ls_kind : Z; ls_now : Z; ls_now_hi : Z; ls_now2 : Z; ls_addr : bytes; ls_hdr : option bytes; ls_trusted : bool; ls_ok : bool;
                        ls_status : Z; ls_retry : Z; ls_nsess : N; ls_tab : ltable }.
 
 (** Arguments [raw] / [sp] are dictionary indices: [raw] of a token's bytes,
@@ -88,7 +99,14 @@ Definition out_status (o : login_out) : Z :=
   match o with L429 _ => 429 | L403 => 403 | L200 => 200 end.
 
 Definition out_retry (o : login_out) : Z :=
-  match o with L429 l => l / 1000000000 | _ => -1 end.
+  match retry_after o with Some r => r | None => -1 end.
+
+(** The header value against the model's for both ends of the bracket. *)
+Definition retry_in_bracket (st : login_step) (o : login_out) : bool :=
+  match o with
+  | L429 l => (retry_after_secs (l - (ls_now_hi st - ls_now st)) <=? ls_retry st) && (ls_retry st <=? retry_after_secs l)
+  | _ => ls_retry st =? -1
+  end.
 
 Fixpoint login_replay_opt (c : option rl_conf) (tol : Z) (s : rl_state) (ns : N) (i : Z) (l : list login_step) : Z :=
   match l with
@@ -98,14 +116,11 @@ Fixpoint login_replay_opt (c : option rl_conf) (tol : Z) (s : rl_state) (ns : N)
         if (ls_status st =? 400) && (ls_nsess st =? ns)%N && ltab_ok tol s (ls_tab st)
         then login_replay_opt c tol s ns (i + 1) l' else i
       else
-        let e := {| a_now := ls_now st; a_now2 := ls_now st; a_addr := ls_addr st; a_hdr := ls_hdr st;
+        let e := {| a_now := ls_now st; a_now2 := ls_now2 st; a_addr := ls_addr st; a_hdr := ls_hdr st;
                    a_trusted := ls_trusted st; a_ok := ls_ok st |} in
         let '(s', o) := login_opt c e s in
         let ns' := match o with L200 => (ns + 1)%N | _ => ns end in
-        let retry_ok := match o with
-                        | L429 _ => Z.abs (out_retry o - ls_retry st) <=? 1
-                        | _ => ls_retry st =? -1
-                        end in
+        let retry_ok := retry_in_bracket st o in
         if (out_status o =? ls_status st) && retry_ok && (ls_nsess st =? ns')%N && ltab_ok tol s' (ls_tab st)
         then login_replay_opt c tol s' ns' (i + 1) l' else i
   end.
@@ -126,14 +141,11 @@ Fixpoint login_replay (c : rl_conf) (tol : Z) (s : rl_state) (ns : N) (i : Z) (l
         if (ls_status st =? 400) && (ls_nsess st =? ns)%N && ltab_ok tol s (ls_tab st)
         then login_replay c tol s ns (i + 1) l' else i
       else
-        let e := {| a_now := ls_now st; a_now2 := ls_now st; a_addr := ls_addr st; a_hdr := ls_hdr st;
+        let e := {| a_now := ls_now st; a_now2 := ls_now2 st; a_addr := ls_addr st; a_hdr := ls_hdr st;
                    a_trusted := ls_trusted st; a_ok := ls_ok st |} in
         let '(s', o) := login c e s in
         let ns' := match o with L200 => (ns + 1)%N | _ => ns end in
-        let retry_ok := match o with
-                        | L429 _ => Z.abs (out_retry o - ls_retry st) <=? 1
-                        | _ => ls_retry st =? -1
-                        end in
+        let retry_ok := retry_in_bracket st o in
         if (out_status o =? ls_status st) && retry_ok && (ls_nsess st =? ns')%N && ltab_ok tol s' (ls_tab st)
         then login_replay c tol s' ns' (i + 1) l' else i
   end.
@@ -203,7 +215,7 @@ Fixpoint login_outs (c : rl_conf) (s : rl_state) (l : list login_step) : list (Z
   | st :: l' =>
       if ls_kind st =? 1 then (400, -1) :: login_outs c s l'
       else
-        let e := {| a_now := ls_now st; a_now2 := ls_now st; a_addr := ls_addr st; a_hdr := ls_hdr st;
+        let e := {| a_now := ls_now st; a_now2 := ls_now2 st; a_addr := ls_addr st; a_hdr := ls_hdr st;
                    a_trusted := ls_trusted st; a_ok := ls_ok st |} in
         let '(s', o) := login c e s in (out_status o, out_retry o) :: login_outs c s' l'
   end.
@@ -214,7 +226,7 @@ Fixpoint login_outs_opt (c : option rl_conf) (s : rl_state) (l : list login_step
   | st :: l' =>
       if ls_kind st =? 1 then (400, -1) :: login_outs_opt c s l'
       else
-        let e := {| a_now := ls_now st; a_now2 := ls_now st; a_addr := ls_addr st; a_hdr := ls_hdr st;
+        let e := {| a_now := ls_now st; a_now2 := ls_now2 st; a_addr := ls_addr st; a_hdr := ls_hdr st;
                    a_trusted := ls_trusted st; a_ok := ls_ok st |} in
         let '(s', o) := login_opt c e s in (out_status o, out_retry o) :: login_outs_opt c s' l'
   end.
